@@ -76,6 +76,10 @@ CHECKS = {
   "text": "Seeded search over arities (0-4 positional, 0-3 keyword argument futures plus the function future; plain and library futures) x completion orders by 1-3 threads (some inputs already done) x failing inputs at any position x a raising function x schedules. Oracles by object identity: the function is called exactly once, only after every input's completion had begun, with every positional argument in its position and every keyword under its own name; the output is its return value or exception; with failing inputs the output carries one of their exceptions and the function ran at most once.",
   "note": "Which of several failing inputs wins is left open, as the property does.",
   "design": "10 (C16)"},
+ "C17": {
+  "text": "Scoped to the schedule / time facets: seeded search over a fixed table of (forwarded operation, value) pairs - every forwarded dunder and attribute / method access, including pairs for which the operation raises - and the non-forwarded operations (bool, repr, str, ==, hash, unknown dunder lookups), applied to f_proxy(f) with f resolved, failed, or pending and resolved by another thread at a scheduler-chosen point, with and without timeout=tau; and f_nocancel wrappers raced by repeated cancel() and the inner completion. Oracles: same value or exception type as the operation on f.result(), f's own exception if it failed, blocking until resolution, TimeoutError at t0+tau (never earlier, within 5 ms in virtual time), non-forwarded operations return without virtual time passing, f_nocancel.cancel() always False with 0 cancels reaching f and the wrapper mirroring f's outcome.",
+  "note": "'for all operand values across the builtin types' is an input-space claim: the table samples it and is not presented as coverage of it.",
+  "design": "10 (C17)"},
 }
 def main():
     checks = []
